@@ -122,6 +122,13 @@ func Serve(handle func(*Req, *Resp)) {
 			return
 		}
 		var resp Resp
+		if req.Op == "ping" {
+			if err := enc.Encode(&resp); err != nil {
+				return
+			}
+			out.Flush()
+			continue
+		}
 		func() {
 			defer func() {
 				if e := recover(); e != nil {
@@ -217,7 +224,47 @@ func (w *Worker) start() error {
 			ch <- wmsg{resp: r}
 		}
 	}(w.msgs)
+	// handshake: start-up time (exec, package init) must not count against
+	// the per-request watchdog
+	if err := w.enc.Encode(&Req{Op: "ping"}); err != nil {
+		w.kill()
+		return fmt.Errorf("worker handshake: %v", err)
+	}
+	select {
+	case m := <-w.msgs:
+		if m.err != nil {
+			log := w.stderr.String()
+			w.kill()
+			return fmt.Errorf("worker handshake: %v; stderr: %.500s", m.err, log)
+		}
+	case <-time.After(10 * time.Minute):
+		w.kill()
+		return fmt.Errorf("worker did not start within 10 minutes")
+	}
 	return nil
+}
+
+// ConfirmHang re-runs a request that stalled, in isolation: a fresh worker
+// must answer a control request promptly and then stall again on req. Any
+// other outcome means the stall cannot be blamed on the code under test.
+func (w *Worker) ConfirmHang(req *Req) (confirmed bool, why string) {
+	w.kill()
+	t0 := time.Now()
+	if _, crash, err := w.Call(&Req{Op: "ping"}); err != nil || crash != nil {
+		return false, fmt.Sprintf("control request failed: %v %v", err, crash)
+	}
+	if d := time.Since(t0); d > w.Timeout/3 {
+		w.kill()
+		return false, fmt.Sprintf("machine too slow to judge a stall (start-up and control request took %s)", d)
+	}
+	_, crash, err := w.Call(req)
+	if err != nil {
+		return false, err.Error()
+	}
+	if crash != nil && crash.Kind == "hang" {
+		return true, crash.Log
+	}
+	return false, "did not stall again"
 }
 
 func (w *Worker) kill() {
@@ -352,8 +399,10 @@ func (w *Worker) CallMany(reqs []*Req) (resps []*Resp, crashes []*Crash, err err
 				log := w.stderr.String()
 				w.kill()
 				crashes[k] = &Crash{Kind: "hang", Headline: fmt.Sprintf("no answer within %s", w.Timeout), Site: hangSite(log), Log: trunc(log, 6000)}
-				k++
-				died = true
+				<-wdone
+				// the caller decides what to do about a stall before
+				// anything else is run (entries after k stay nil/nil)
+				return resps, crashes, nil
 			}
 		}
 		<-wdone
@@ -539,7 +588,45 @@ func (p *Py) start() error {
 			ch <- l
 		}
 	}(p.lines)
+	if _, err := in.Write([]byte("{\"op\":\"ping\"}\n")); err != nil {
+		return fmt.Errorf("python handshake: %v", err)
+	}
+	select {
+	case _, ok := <-p.lines:
+		if !ok {
+			log := p.stderr.String()
+			p.cmd.Wait()
+			p.cmd = nil
+			return fmt.Errorf("python driver did not start; stderr: %.800s", log)
+		}
+	case <-time.After(10 * time.Minute):
+		p.cmd.Process.Kill()
+		p.cmd.Wait()
+		p.cmd = nil
+		return fmt.Errorf("python driver did not start within 10 minutes")
+	}
 	return nil
+}
+
+// ConfirmHang: see Worker.ConfirmHang.
+func (p *Py) ConfirmHang(text string) (confirmed bool, why string) {
+	if p.cmd != nil {
+		p.cmd.Process.Kill()
+		p.cmd.Wait()
+		p.cmd = nil
+	}
+	t0 := time.Now()
+	if _, hang, err := p.Call(map[string]interface{}{"op": "manifest", "text": "", "reads": true}); err != nil || hang {
+		return false, fmt.Sprintf("control request failed: %v hang=%v", err, hang)
+	}
+	if d := time.Since(t0); d > p.Timeout/3 {
+		return false, fmt.Sprintf("machine too slow to judge a stall (start-up and control request took %s)", d)
+	}
+	_, hang, err := p.Call(map[string]interface{}{"op": "manifest", "text": text, "reads": true})
+	if err != nil {
+		return false, err.Error()
+	}
+	return hang, "did not stall again"
 }
 
 func (p *Py) Close() {
@@ -610,8 +697,7 @@ func (p *Py) CallMany(texts []string, reads bool) (resps []*PyResp, hangs []bool
 			}
 			wdone <- true
 		}()
-		died := false
-		for k < len(texts) && !died {
+		for k < len(texts) {
 			p.Calls++
 			select {
 			case l, ok := <-p.lines:
@@ -637,8 +723,8 @@ func (p *Py) CallMany(texts []string, reads bool) (resps []*PyResp, hangs []bool
 				p.cmd.Wait()
 				p.cmd = nil
 				hangs[k] = true
-				k++
-				died = true
+				<-wdone
+				return resps, hangs, nil
 			}
 		}
 		<-wdone
